@@ -28,8 +28,27 @@ import warnings
 
 import numpy as np
 
-import common
-import shim  # noqa: F401
+# `cola.backends.get_library_fns` tries `import jax` / `import torch` on EVERY call; neither is installed and a failed
+# import is not cached by Python (≈ 0.5 ms of path scanning per call, 60 % of the run time of this check).  A finder in
+# front of sys.meta_path makes the same ModuleNotFoundError immediate.  Semantics unchanged.
+class _AbsentBackends:
+    @staticmethod
+    def find_spec(name, path=None, target=None):
+        if name in ("jax", "torch"):
+            raise ModuleNotFoundError(f"No module named '{name}'", name=name)
+        return None
+
+
+def _absent_backends():
+    import importlib.util
+    if all(importlib.util.find_spec(m) is None for m in ("jax", "torch")):
+        sys.meta_path.insert(0, _AbsentBackends)
+
+
+_absent_backends()
+
+import common  # noqa: E402
+import shim  # noqa: F401,E402
 import cola
 from cola.ops import (Adjoint, BlockDiag, Concatenated, Dense, Diagonal, FFT, Householder, Identity, Kernel, Kronecker,
                       KronSum, LinearOperator, Permutation, Product, ScalarMul, Sliced, Sparse, Sum, Transpose,
@@ -67,51 +86,70 @@ def _spd(n, shift):
     return np.ascontiguousarray(m)
 
 
-class Env:
+def make_arrays(variant=0):
+    """the arrays the caller owns (fixed payloads; `variant` shifts them)"""
+    a = {}
+    v = float(variant)
+    for n in SIZES:
+        i = np.arange(n, dtype=np.float64)
+        a[f"b{n}"] = np.cos(i + 1 + v) + 2.0
+        a[f"B{n}"] = np.stack([np.sin(i + 2 + v) + 1.5, np.cos(2 * i + v) - 0.25], axis=1)
+        a[f"x0{n}"] = 0.1 * np.sin(3 * i + 1 + v) + 0.05
+        a[f"X0{n}"] = 0.1 * np.stack([np.cos(i + v), np.sin(i + 0.5 + v)], axis=1)
+        a[f"v{n}"] = 1.0 + 0.5 * np.cos(2 * i + 0.3 + v)
+        a[f"V{n}"] = np.stack([1.0 + 0.5 * np.sin(i + v), 0.7 - 0.3 * np.cos(i + v)], axis=0)  # (b, n) batch
+        a[f"M{n}"] = _spd(n, variant)
+        a[f"d{n}"] = 1.0 + (i % 4) + 0.25 * v
+        a[f"idx{n}"] = np.array([(3 * k + 1) % n for k in range(n)], dtype=np.int64)  # a permutation (3 coprime to n)
+        a[f"jdx{n}"] = np.array([(3 * k + 1) % n for k in range(n)], dtype=np.int64)
+    # constructor arrays of the pool (n = 4)
+    a["L4"] = np.tril(_spd(4, 1)) + np.eye(4)
+    a["M2"] = np.array([[2.0, 0.5], [0.5, 3.0]]) + 0.1 * v * np.eye(2)
+    a["N2"] = np.array([[4.0, 1.0], [1.0, 2.0]])
+    a["R24"] = np.array([[1.0, 2.0, 0.0, 1.0], [0.5, 1.0, 3.0, 0.0]])
+    a["S24"] = np.array([[0.0, 1.0, 1.0, 2.0], [2.0, 0.0, 1.0, 1.5]])
+    a["M6"] = _spd(6, 2)
+    a["i6"] = np.array([0, 2, 3, 5], dtype=np.int64)
+    a["j6"] = np.array([0, 2, 3, 5], dtype=np.int64)
+    a["sp_data"] = np.array([4.0, 5.0, 6.0, 7.0, 1.0, 1.0, 0.5, 0.5])
+    a["sp_row"] = np.array([0, 1, 2, 3, 0, 1, 2, 3], dtype=np.int64)
+    a["sp_col"] = np.array([0, 1, 2, 3, 1, 0, 3, 2], dtype=np.int64)
+    a["ta"] = np.array([1.0, 0.5, 0.25])
+    a["tb"] = np.array([4.0, 5.0, 6.0, 7.0])
+    a["tc"] = np.array([1.0, 0.5, 0.25])
+    a["p4"] = np.array([2, 0, 3, 1], dtype=np.int64)
+    a["w4"] = np.array([[1.0], [2.0], [0.5], [-1.0]]) / np.sqrt(6.25)
+    a["C4"] = (_spd(4, 0) + 1j * (np.triu(np.ones((4, 4)), 1) - np.tril(np.ones((4, 4)), -1)) * 0.25).astype(np.complex128)
+    a["kx1"] = np.array([[0.0], [0.5], [1.0], [1.5]])
+    a["kx2"] = np.array([[0.1], [0.6], [1.1], [1.6]])
+    return a
+
+
+class RecDict(dict):
+    """dict of the caller-owned arrays that records which ones an operation asked for"""
+    touched = None
+
+    def __getitem__(self, k):
+        if self.touched is not None:
+            self.touched.add(k)
+        return dict.__getitem__(self, k)
+
+
+class EnvBase:
     """Everything the CALLER owns: arrays (self.arr: name -> ndarray), the pool operators
     (self.pool: kind -> operator) and, while a history runs, every operator value it produced."""
 
     def __init__(self, variant=0):
-        a = {}
-        v = float(variant)
-        for n in SIZES:
-            i = np.arange(n, dtype=np.float64)
-            a[f"b{n}"] = np.cos(i + 1 + v) + 2.0
-            a[f"B{n}"] = np.stack([np.sin(i + 2 + v) + 1.5, np.cos(2 * i + v) - 0.25], axis=1)
-            a[f"x0{n}"] = 0.1 * np.sin(3 * i + 1 + v) + 0.05
-            a[f"X0{n}"] = 0.1 * np.stack([np.cos(i + v), np.sin(i + 0.5 + v)], axis=1)
-            a[f"v{n}"] = 1.0 + 0.5 * np.cos(2 * i + 0.3 + v)
-            a[f"V{n}"] = np.stack([1.0 + 0.5 * np.sin(i + v), 0.7 - 0.3 * np.cos(i + v)], axis=0)  # (b, n) batch
-            a[f"M{n}"] = _spd(n, variant)
-            a[f"d{n}"] = 1.0 + (i % 4) + 0.25 * v
-            a[f"idx{n}"] = np.array([(3 * k + 1) % n for k in range(n)], dtype=np.int64)  # a permutation (3 coprime to n)
-            a[f"jdx{n}"] = np.array([(3 * k + 1) % n for k in range(n)], dtype=np.int64)
-        # constructor arrays of the pool (n = 4)
-        a["L4"] = np.tril(_spd(4, 1)) + np.eye(4)
-        a["M2"] = np.array([[2.0, 0.5], [0.5, 3.0]]) + 0.1 * v * np.eye(2)
-        a["N2"] = np.array([[4.0, 1.0], [1.0, 2.0]])
-        a["R24"] = np.array([[1.0, 2.0, 0.0, 1.0], [0.5, 1.0, 3.0, 0.0]])
-        a["S24"] = np.array([[0.0, 1.0, 1.0, 2.0], [2.0, 0.0, 1.0, 1.5]])
-        a["M6"] = _spd(6, 2)
-        a["i6"] = np.array([0, 2, 3, 5], dtype=np.int64)
-        a["j6"] = np.array([0, 2, 3, 5], dtype=np.int64)
-        a["sp_data"] = np.array([4.0, 5.0, 6.0, 7.0, 1.0, 1.0, 0.5, 0.5])
-        a["sp_row"] = np.array([0, 1, 2, 3, 0, 1, 2, 3], dtype=np.int64)
-        a["sp_col"] = np.array([0, 1, 2, 3, 1, 0, 3, 2], dtype=np.int64)
-        a["ta"] = np.array([1.0, 0.5, 0.25])
-        a["tb"] = np.array([4.0, 5.0, 6.0, 7.0])
-        a["tc"] = np.array([1.0, 0.5, 0.25])
-        a["p4"] = np.array([2, 0, 3, 1], dtype=np.int64)
-        a["w4"] = np.array([[1.0], [2.0], [0.5], [-1.0]]) / np.sqrt(6.25)
-        a["C4"] = (_spd(4, 0) + 1j * (np.triu(np.ones((4, 4)), 1) - np.tril(np.ones((4, 4)), -1)) * 0.25).astype(np.complex128)
-        a["kx1"] = np.array([[0.0], [0.5], [1.0], [1.5]])
-        a["kx2"] = np.array([[0.1], [0.6], [1.1], [1.6]])
-        self.arr = a
+        a = make_arrays(variant)
+        self.arr = RecDict(a)
         self.pool = build_pool(a)
+        self.arr.touched = set()
         self.snap_arr = {k: snap_array(x) for k, x in a.items()}
         self.snap_ops = {k: snap_op(o) for k, o in self.pool.items()}
-        self.produced = []      # [(label, operator, snapshot)]
         self.partners = {}
+        self.used = set()
+        self.produced = []
+        self.dirty = False
 
     # partners for binary algebra, by size (built lazily; they wrap caller-owned arrays)
     def partner(self, what, n):
@@ -124,7 +162,8 @@ class Env:
             else:
                 op = Dense(self.arr["M2"])
             self.partners[key] = op
-            self.produced.append((f"partner:{what}{n}", op, snap_op(op)))
+            self.snap_ops[key] = snap_op(op)
+        self.used.add(key)
         return self.partners[key]
 
 
@@ -138,36 +177,38 @@ def _generic_mm(M):
     return mm
 
 
-def build_pool(a):
-    f64 = np.float64
-    p = {}
-    p["dense"] = Dense(a["M4"])
-    p["tri"] = Triangular(a["L4"], lower=True)
-    p["sparse"] = Sparse(a["sp_data"], a["sp_row"], a["sp_col"], (4, 4))
-    p["scalar"] = ScalarMul(2.5, (4, 4), dtype=f64)
-    p["eye"] = Identity((4, 4), f64)
-    p["prod"] = Product(Dense(a["M4"]), Diagonal(a["d4"]))
-    p["sum"] = Sum(Dense(a["M4"]), Diagonal(a["d4"]))
-    p["kron"] = Kronecker(Dense(a["M2"]), Dense(a["N2"]))
-    p["kronsum"] = KronSum(Dense(a["M2"]), Dense(a["N2"]))
-    p["bdiag"] = BlockDiag(Dense(a["M2"]), Dense(a["N2"]))
-    p["bdiagm"] = BlockDiag(Dense(a["M2"]), multiplicities=[2])
-    p["diag"] = Diagonal(a["d4"])
-    p["tridiag"] = Tridiagonal(a["ta"], a["tb"], a["tc"])
-    p["transpose"] = Transpose(Triangular(a["L4"], lower=True))
-    p["adjoint"] = Adjoint(Sparse(a["sp_data"], a["sp_row"], a["sp_col"], (4, 4)))
-    p["sliced_s"] = Dense(a["M6"])[1:5, 1:5]
-    p["sliced_a"] = Dense(a["M6"])[a["i6"], a["j6"]]
-    p["perm"] = Permutation(a["p4"], f64)
-    p["concat"] = Concatenated(Dense(a["R24"]), Dense(a["S24"]), axis=0)
-    p["house"] = Householder(a["w4"], beta=2.0)
-    p["generic"] = LinearOperator(f64, (4, 4), matmat=_generic_mm(a["M4"]))
-    p["nodispatch"] = cola.no_dispatch(Sum(Dense(a["M4"]), Diagonal(a["d4"])))
-    p["psd"] = cola.PSD(Dense(a["M4"]))
-    p["fft"] = FFT(4, dtype=np.complex128)
-    p["kernel"] = Kernel(a["kx1"], a["kx2"], _kfn, 2, 2)
-    p["cdense"] = cola.SelfAdjoint(Dense(a["C4"]))
-    return p
+BUILDERS = {
+    "dense": lambda a: Dense(a["M4"]),
+    "tri": lambda a: Triangular(a["L4"], lower=True),
+    "sparse": lambda a: Sparse(a["sp_data"], a["sp_row"], a["sp_col"], (4, 4)),
+    "scalar": lambda a: ScalarMul(2.5, (4, 4), dtype=np.float64),
+    "eye": lambda a: Identity((4, 4), np.float64),
+    "prod": lambda a: Product(Dense(a["M4"]), Diagonal(a["d4"])),
+    "sum": lambda a: Sum(Dense(a["M4"]), Diagonal(a["d4"])),
+    "kron": lambda a: Kronecker(Dense(a["M2"]), Dense(a["N2"])),
+    "kronsum": lambda a: KronSum(Dense(a["M2"]), Dense(a["N2"])),
+    "bdiag": lambda a: BlockDiag(Dense(a["M2"]), Dense(a["N2"])),
+    "bdiagm": lambda a: BlockDiag(Dense(a["M2"]), multiplicities=[2]),
+    "diag": lambda a: Diagonal(a["d4"]),
+    "tridiag": lambda a: Tridiagonal(a["ta"], a["tb"], a["tc"]),
+    "transpose": lambda a: Transpose(Triangular(a["L4"], lower=True)),
+    "adjoint": lambda a: Adjoint(Sparse(a["sp_data"], a["sp_row"], a["sp_col"], (4, 4))),
+    "sliced_s": lambda a: Dense(a["M6"])[1:5, 1:5],
+    "sliced_a": lambda a: Dense(a["M6"])[a["i6"], a["j6"]],
+    "perm": lambda a: Permutation(a["p4"], np.float64),
+    "concat": lambda a: Concatenated(Dense(a["R24"]), Dense(a["S24"]), axis=0),
+    "house": lambda a: Householder(a["w4"], beta=2.0),
+    "generic": lambda a: LinearOperator(np.float64, (4, 4), matmat=_generic_mm(a["M4"])),
+    "nodispatch": lambda a: cola.no_dispatch(Sum(Dense(a["M4"]), Diagonal(a["d4"]))),
+    "psd": lambda a: cola.PSD(Dense(a["M4"])),
+    "fft": lambda a: FFT(4, dtype=np.complex128),
+    "kernel": lambda a: Kernel(a["kx1"], a["kx2"], _kfn, 2, 2),
+    "cdense": lambda a: cola.SelfAdjoint(Dense(a["C4"])),
+}
+
+
+def build_pool(a, order=None):
+    return {k: BUILDERS[k](a) for k in (order or KINDS)}
 
 
 KINDS = ["dense", "tri", "sparse", "scalar", "eye", "prod", "sum", "kron", "kronsum", "bdiag", "bdiagm", "diag",
@@ -186,20 +227,70 @@ def ann_names(A):
     return tuple(sorted(getattr(a, "__name__", str(a)) for a in A.annotations))
 
 
+# Attributes that are NOT part of the value of an operator (documented exclusions, the same ones the
+# Lean allow-list of in-place sites spells out): `info` is the log of the last iterative run
+# (IterativeOperatorWInfo._matmat stores it, LanczosUnary/ArnoldiUnary update it; it carries wall-clock
+# timings), and the `start_vector` entry of the constructor-built `kwargs` dict of LanczosUnary /
+# ArnoldiUnary, which `_matmat` pops before use (the entry is never read).
+SKIP_ATTRS = {"info"}
+SKIP_KWARGS = {"start_vector"}
+
+
+def struct_snap(v, depth=0):
+    """structural (deep) snapshot of a value held by the caller: every attribute of an operator,
+    recursively; arrays by bytes"""
+    if isinstance(v, np.ndarray):
+        return ("a",) + snap_array(v)
+    if isinstance(v, LinearOperator):
+        items = []
+        for k, x in sorted(vars(v).items()):
+            if k in SKIP_ATTRS:
+                continue
+            if k == "kwargs" and isinstance(x, dict):
+                x = {kk: vv for kk, vv in x.items() if kk not in SKIP_KWARGS}
+            items.append((k, struct_snap(x, depth + 1)))
+        return ("o", type(v).__name__, tuple(items))
+    if isinstance(v, (tuple, list)):
+        return (type(v).__name__,) + tuple(struct_snap(x, depth + 1) for x in v)
+    if isinstance(v, dict):
+        return ("d",) + tuple((repr(k), struct_snap(x, depth + 1)) for k, x in sorted(v.items(), key=lambda kv: repr(kv[0])))
+    if isinstance(v, (set, frozenset)):
+        return ("s",) + tuple(sorted(getattr(x, "__name__", repr(x)) for x in v))
+    if v is None or isinstance(v, (bool, int, float, complex, str, slice, np.generic, np.dtype)):
+        return ("v", type(v).__name__, repr(v))
+    if hasattr(v, "tocoo") and hasattr(v, "data"):  # scipy sparse matrix held by Sparse
+        c = v.tocoo()
+        return ("sp", v.shape, snap_array(np.asarray(c.data)), snap_array(np.asarray(c.row)), snap_array(np.asarray(c.col)))
+    if hasattr(v, "__dict__") and not callable(v) and depth < 6 and not isinstance(v, type) \
+            and type(v).__module__.startswith("cola"):
+        return ("obj", type(v).__name__, struct_snap(vars(v), depth + 1))  # Algorithm dataclasses (CG(x0=...), ...)
+    return ("id", type(v).__name__, getattr(v, "__qualname__", None) or getattr(v, "__name__", None) or "")
+
+
+def dense_snap(A):
+    with np.errstate(all="ignore"), warnings.catch_warnings():
+        warnings.simplefilter("ignore")
+        try:
+            return snap_array(np.asarray(A.to_dense()))
+        except Exception as ex:
+            return ("error", type(ex).__name__, str(ex)[:160])
+
+
+def head_snap(A):
+    return (type(A).__name__, tuple(A.shape), str(A.dtype), ann_names(A), repr(A.device))
+
+
 def snap_op(A):
-    """what the caller can observe of an operator: class, shape, dtype, annotations, attribute
-    names, device and the represented matrix"""
-    with np.errstate(all="ignore"):
-        D = np.asarray(A.to_dense())
-    return (type(A).__name__, tuple(A.shape), str(A.dtype), ann_names(A), tuple(sorted(vars(A))), repr(A.device),
-            snap_array(D))
+    """what the caller can observe of an operator: class, shape, dtype, annotations, device, every
+    attribute (deep), and the represented matrix"""
+    return (head_snap(A), struct_snap(A), dense_snap(A))
 
 
 def fingerprint(res):
     """bytes-exact description of a result (arrays, operators, tuples of them; info dicts carry
     wall-clock timings and are skipped)"""
     if isinstance(res, LinearOperator):
-        return ("op",) + snap_op(res)
+        return ("op", head_snap(res), dense_snap(res))
     if isinstance(res, np.ndarray):
         return ("arr",) + snap_array(res)
     if isinstance(res, (tuple, list)):
@@ -328,6 +419,11 @@ def _(env, A, last):
 @op("to")
 def _(env, A, last):
     return A.to(None)
+
+
+@op("to_dtype")
+def _(env, A, last):
+    return A.to(None, np.float32)      # "dtype change is not supported yet": only the inputs matter here
 
 
 @op("getitem_ij")
@@ -467,6 +563,7 @@ def _(env, A, last):
 
 
 ALPHABET = list(OPS)
+USES_LAST = {"matvec", "solve", "inv_cg", "inv_gmres", "cg", "gmres"}
 
 
 class NotApplicable(Exception):
@@ -476,44 +573,68 @@ class NotApplicable(Exception):
 # =============================================================================================
 # running one history on one focus kind
 # =============================================================================================
-def check_unchanged(env, step):
-    """-> list of differences between the caller's values and their snapshots"""
-    diffs = []
-    for k, x in env.arr.items():
-        if snap_array(x) != env.snap_arr[k]:
-            diffs.append({"what": "caller-owned array changed", "array": k, "step": step,
-                          "before": np.frombuffer(env.snap_arr[k][2], dtype=env.snap_arr[k][0]).tolist()[:16],
-                          "after": x.ravel().tolist()[:16]})
-    for k, o in env.pool.items():
-        try:
-            s = snap_op(o)
-        except Exception as ex:  # an operator that no longer multiplies is a change, too
-            s = ("error", type(ex).__name__, str(ex)[:200])
-        if s != env.snap_ops[k]:
-            diffs.append({"what": "pool operator changed", "operator": k, "step": step, "field": _first_diff(env.snap_ops[k], s)})
-    for label, o, s0 in env.produced:
-        try:
-            s = snap_op(o)
-        except Exception as ex:
-            s = ("error", type(ex).__name__, str(ex)[:200])
-        if s != s0:
-            diffs.append({"what": "operator value changed after it was returned", "operator": label, "step": step,
-                          "field": _first_diff(s0, s)})
-    return diffs
+def _explain(s0, s1):
+    if s0[0] != s1[0]:
+        return f"class/shape/dtype/annotations/device: {s0[0]} -> {s1[0]}"
+    if s0[1] != s1[1]:
+        return "attributes: " + _struct_diff(s0[1], s1[1])
+    return "to_dense bytes"
 
 
-FIELDS = ["class", "shape", "dtype", "annotations", "attributes", "device", "to_dense"]
+def _struct_diff(a, b, path=""):
+    if a == b:
+        return ""
+    if isinstance(a, tuple) and isinstance(b, tuple) and a and b and a[0] == b[0] == "o" and a[1] == b[1]:
+        da, db = dict(a[2]), dict(b[2])
+        for k in sorted(set(da) | set(db)):
+            if da.get(k) != db.get(k):
+                if k in da and k in db:
+                    return _struct_diff(da[k], db[k], path + "." + k)
+                return f"{path}.{k} {'removed' if k in da else 'added'}"
+    if isinstance(a, tuple) and isinstance(b, tuple) and len(a) == len(b):
+        for i, (x, y) in enumerate(zip(a, b)):
+            if x != y and isinstance(x, tuple) and isinstance(y, tuple):
+                return _struct_diff(x, y, path + f"[{i}]")
+    return f"{path}: {str(a)[:80]} -> {str(b)[:80]}"
 
 
-def _first_diff(s0, s1):
-    if len(s0) != len(s1):
-        return f"{s0[:3]} -> {s1[:3]}"
-    for name, a, b in zip(FIELDS, s0, s1):
-        if a != b:
-            if name == "to_dense":
-                return "to_dense bytes"
-            return f"{name}: {a} -> {b}"
-    return "?"
+class Env(EnvBase):
+    """EnvBase + the bookkeeping of one history: which operator values the caller holds"""
+
+    def reset(self):
+        self.produced = []          # [(label, operator, snapshot)] operator values returned by earlier steps
+        self.dirty = False
+
+    def hold(self, label, op):
+        self.produced.append((label, op, snap_op(op)))
+
+    def check(self, step, involved, full=False):
+        """-> differences between the caller's values and their snapshots.  After every operation:
+        ALL caller-owned arrays by bytes (the arrays the pool operators were built from are among
+        them), and class/shape/dtype/annotations/device + deep attribute snapshot + to_dense() bytes of
+        the operators involved so far (focus operator, partners, every operator an earlier step
+        returned).  With `full` (end of the history): the same for EVERY pool operator."""
+        diffs = []
+        for k, x in self.arr.items():
+            if snap_array(x) != self.snap_arr[k]:
+                s0 = self.snap_arr[k]
+                diffs.append({"what": "caller-owned array changed", "array": k, "step": step,
+                              "before": np.frombuffer(s0[2], dtype=s0[0]).tolist()[:8], "after": x.ravel().tolist()[:8]})
+        for k, o in list(self.pool.items()) + list(self.partners.items()):
+            if not (full or k in involved):
+                continue
+            s0 = self.snap_ops[k]
+            s1 = snap_op(o)
+            if s1 != s0:
+                diffs.append({"what": "pool operator changed", "operator": str(k), "step": step, "field": _explain(s0, s1)})
+        for label, o, s0 in self.produced:
+            s1 = snap_op(o)
+            if s1 != s0:
+                diffs.append({"what": "an operator changed after it was returned to the caller", "operator": label,
+                              "step": step, "field": _explain(s0, s1)})
+        if diffs:
+            self.dirty = True
+        return diffs
 
 
 def apply_op(env, name, A, last):
@@ -523,39 +644,44 @@ def apply_op(env, name, A, last):
         with np.errstate(all="ignore"):
             try:
                 return "ok", OPS[name](env, A, last)
-            except NotApplicable as ex:
+            except NotApplicable:
                 return "na", "NotApplicable"
             except Exception as ex:
                 return "na", type(ex).__name__
 
 
-def run_history(history, kind, variant=0, env=None):
-    """Runs the history (list of operation names) with focus operator pool[kind].
-    -> dict(evals, touched, failures=[...])"""
-    env = env or Env(variant)
+def run_history(history, kind, env, full_end=False):
+    """Runs the history (list of operation names) with focus operator pool[kind] in `env`.
+    -> dict(evals, statuses, touched, failures=[...]).  `env.dirty` is set when something changed
+    (the caller must then use a new Env).  `touched`: some applicable operation of the history was
+    handed at least one caller-owned array (right-hand side, x0, start vector, index array)."""
+    env.reset()
     A, last = env.pool[kind], None
     failures, evals, statuses = [], 0, []
+    involved = {kind}
     first = None
+    touched = False
     for step, name in enumerate(history):
+        env.used = set()
+        env.arr.touched = set()
         st, res = apply_op(env, name, A, last)
         evals += 1
+        involved |= env.used
+        if st == "ok" and (env.arr.touched or (isinstance(last, np.ndarray) and name in USES_LAST)):
+            touched = True
         statuses.append(st if st == "ok" else f"na:{res}")
         if step == 0:
             first = (st, fingerprint(res) if st == "ok" else res)
         if st == "ok":
-            # operators that came back are values the caller now holds
             for r in (res if isinstance(res, (tuple, list)) else [res]):
-                if isinstance(r, LinearOperator):
-                    try:
-                        env.produced.append((f"step{step}:{name}", r, snap_op(r)))
-                    except Exception:
-                        pass
+                if isinstance(r, LinearOperator):   # a value the caller now holds
+                    env.hold(f"step{step}:{name}", r)
             r0 = res[0] if isinstance(res, (tuple, list)) and len(res) else res
             if isinstance(r0, LinearOperator) and len(r0.shape) == 2 and r0.shape[0] == r0.shape[1] and r0.shape[0] in SIZES:
                 A = r0
             elif isinstance(r0, np.ndarray):
                 last = r0
-        d = check_unchanged(env, step)
+        d = env.check(step, involved)
         if d:
             failures.extend(d)
             break
@@ -565,14 +691,682 @@ def run_history(history, kind, variant=0, env=None):
         evals += 1
         again = (st, fingerprint(res) if st == "ok" else res)
         if again != first:
+            env.dirty = True
             failures.append({"what": "repeating the first call gives a different result", "step": len(history),
                              "first": _short(first), "again": _short(again)})
         else:
-            d = check_unchanged(env, len(history))
-            failures.extend(d)
-    return {"evals": evals, "statuses": statuses, "failures": failures}
+            failures.extend(env.check(len(history), involved, full=full_end))
+    return {"evals": evals, "statuses": statuses, "failures": failures, "touched": touched}
 
 
 def _short(fp):
     s = repr(fp)
     return s if len(s) < 300 else s[:300] + "..."
+
+
+# =============================================================================================
+# (a) exhaustive short histories, random longer ones
+# =============================================================================================
+# the alphabet of the exhaustive part (32 operations); the remaining operations of OPS (variants of
+# these) only take part in the random longer histories
+SHORT_ALPHABET = ["matvec", "matmat", "rmatvec", "T", "H", "add", "sub", "smul", "prod", "kron", "PSD", "to_dense",
+                  "flatten", "to", "getitem_ij", "getitem_col", "slice", "index", "diag", "trace", "solve", "inv_cg",
+                  "inv_gmres", "cg", "cg_block", "gmres", "lanczos", "arnoldi", "eig", "exp_lanczos", "sqrt_lanczos",
+                  "logdet"]
+# `exp` / `inv` return lazily nested operators (V D V^-1, U^-1 L^-1 P^-1); every further operation on them creates new
+# parametrised classes whose dispatch resolution in plum costs 50-300 ms, so they take part in dedicated pairs only
+HEAVY = ["exp", "inv"]
+HEAVY_FOLLOW = ["matvec", "flatten", "PSD", "cg"]
+LONG_ALPHABET = [o for o in ALPHABET if o not in ("gmres_tri",) and o not in HEAVY]
+
+_ENV = None
+
+
+def _get_env():
+    global _ENV
+    if _ENV is None or _ENV.dirty:
+        _ENV = Env()
+    return _ENV
+
+
+def _work(chunk):
+    """chunk: list of histories (tuples).  Every history runs on every kind of the pool, in one
+    persistent environment (a change that survives a history is caught by the full comparison at
+    the end of the chunk and then attributed by re-running the chunk history by history)."""
+    global _ENV
+    out = {"evals": 0, "runs": 0, "touched": [], "status": {}, "failures": []}
+    env = _get_env()
+    for h in chunk:
+        t_any = False
+        for kind in KINDS:
+            r = run_history(list(h), kind, env)
+            out["evals"] += r["evals"]
+            out["runs"] += 1
+            t_any = t_any or r["touched"]
+            for name, st in zip(h, r["statuses"]):
+                d = out["status"].setdefault(name, [0, 0])
+                d[0 if st == "ok" else 1] += 1
+            if r["failures"]:
+                out["failures"].append({"history": list(h), "kind": kind, "failures": r["failures"][:3]})
+                env = _ENV = Env()
+        out["touched"].append(t_any)
+    d = env.check(-1, set(), full=True)
+    if d:
+        # something changed that the per-step comparison of the involved operators did not see
+        env = _ENV = Env()
+        found = False
+        for h in chunk:
+            for kind in KINDS:
+                e2 = Env()
+                r = run_history(list(h), kind, e2, full_end=True)
+                if r["failures"]:
+                    out["failures"].append({"history": list(h), "kind": kind, "failures": r["failures"][:3]})
+                    found = True
+        if not found:
+            out["failures"].append({"history": [list(h) for h in chunk], "kind": "*", "failures": d[:3], "chunk": True})
+    return out
+
+
+def all_histories(ctx):
+    rng = random.Random(ctx.seed)
+    A = SHORT_ALPHABET
+    hs = [(a,) for a in A] + list(itertools.product(A, A))
+    hs += [(h,) for h in HEAVY] + [(h, x) for h in HEAVY for x in HEAVY_FOLLOW]
+    n_ex2 = len(hs)
+    if ctx.thorough:
+        l3 = list(itertools.product(A, A, A))
+    else:
+        l3 = sorted({tuple(rng.choice(A) for _ in range(3)) for _ in range(360)})
+    n_long = 1500 if ctx.thorough else 60
+    longs = [tuple(rng.choice(LONG_ALPHABET) for _ in range(rng.randint(4, 8))) for _ in range(n_long)]
+    return hs, l3, longs, n_ex2
+
+
+def shrink(history, kind, what):
+    """delete operations while the same kind of failure persists"""
+    def fails(h):
+        r = run_history(list(h), kind, Env(), full_end=True)
+        return [f for f in r["failures"] if f["what"] == what]
+    cur = list(history)
+    f0 = fails(cur)
+    if not f0:
+        return cur, None
+    changed = True
+    while changed and len(cur) > 1:
+        changed = False
+        for i in range(len(cur)):
+            cand = cur[:i] + cur[i + 1:]
+            f = fails(cand)
+            if f:
+                cur, f0, changed = cand, f, True
+                break
+    return cur, f0[0]
+
+
+def part_a(ctx, cov):
+    hs, l3, longs, n_ex2 = all_histories(ctx)
+    allh = hs + l3 + longs
+    # long histories are slower: small chunks, shuffled for balance
+    heavy = [h for h in allh if any(o in HEAVY for o in h)]
+    light = [h for h in allh if not any(o in HEAVY for o in h)]
+    chunks = [light[i:i + 6] for i in range(0, len(light), 6)]
+    random.Random(ctx.seed).shuffle(chunks)
+    chunks = [[h] for h in heavy] + chunks     # slow ones first, one per task
+    t0 = time.time()
+    agg = {"evals": 0, "runs": 0, "status": {}, "failures": []}
+    touched = {}
+    with mp.get_context("fork").Pool(min(16, os.cpu_count() or 1)) as pool:
+        for chunk, out in zip(chunks, pool.imap(_work, chunks, chunksize=1)):
+            agg["evals"] += out["evals"]
+            agg["runs"] += out["runs"]
+            for k, v in out["status"].items():
+                d = agg["status"].setdefault(k, [0, 0])
+                d[0] += v[0]
+                d[1] += v[1]
+            agg["failures"].extend(out["failures"])
+            for h, t in zip(chunk, out["touched"]):
+                touched[h] = touched.get(h, False) or t
+    distinct = {h for h in allh}
+    nontrivial = {h for h in distinct if len(h) >= 2 and touched.get(h)}
+    cov.update({
+        "evaluations": agg["evals"],
+        "runs_history_x_kind": agg["runs"],
+        "distinct_histories": len(distinct),
+        "distinct_nontrivial": len(nontrivial),
+        "rule": "distinct operation sequences of length >= 2 in which, on at least one pool kind, an applicable operation "
+                "(one that did not raise) was handed at least one caller-owned array (right-hand side, x0, start vector, "
+                "index array, or the array result of an earlier step)",
+        "exhaustive": {"alphabet": len(SHORT_ALPHABET), "length_1": len(SHORT_ALPHABET), "length_2": len(SHORT_ALPHABET) ** 2,
+                       "length_3": len(l3), "length_3_all": bool(ctx.thorough)},
+        "random_long": {"count": len(longs), "length": "4..8", "alphabet": len(LONG_ALPHABET)},
+        "alphabet": SHORT_ALPHABET,
+        "long_alphabet_extra": [o for o in LONG_ALPHABET if o not in SHORT_ALPHABET],
+        "pool_kinds": KINDS,
+        "pool_classes": sorted({type(o).__name__.split("[")[0] for o in Env().pool.values()}),
+        "caller_owned_arrays": len(make_arrays()),
+        "applicable": {k: {"ok": v[0], "raised": v[1]} for k, v in sorted(agg["status"].items())},
+        "samples": [list(h) for h in (hs[40:43] + l3[:2] + longs[:2])],
+        "compare": "bytes (tobytes of every caller-owned array after every operation; class/shape/dtype/annotations/device, "
+                   "deep attribute snapshot and to_dense bytes of every operator the history touched after every operation, of "
+                   "every pool operator at the end of each chunk of 6 histories; first call repeated at the end)",
+        "part_a_wall_s": round(time.time() - t0, 1),
+    })
+    # failures -> shrink -> violation
+    seen = set()
+    for f in agg["failures"]:
+        if len(seen) >= 6:
+            break
+        if f.get("chunk"):
+            common.violation(ctx, {"what": "pool changed during a chunk of histories", "histories": f["history"],
+                                   "failure": f["failures"]})
+            seen.add("chunk")
+            continue
+        first = f["failures"][0]
+        small, ff = shrink(f["history"], f["kind"], first["what"])
+        key = (tuple(small), f["kind"] if len(small) > 1 else "", first["what"], first.get("array") or first.get("operator"))
+        key2 = (tuple(small), first["what"], first.get("array") or first.get("operator"))
+        if key2 in seen:
+            continue
+        seen.add(key2)
+        common.violation(ctx, {"history": small, "kind": f["kind"], "failure": ff or first, "original_history": f["history"],
+                               "replay": "./check C18 quick --replay <this file>"})
+    return agg
+
+
+def replay(ctx):
+    spec = json.load(open(ctx.replay))
+    if "child_spec" in spec:
+        part_bc(ctx, {}, specs=[spec["child_spec"]])
+        return
+    r = run_history(spec["history"], spec["kind"], Env(), full_end=True)
+    print(json.dumps({"history": spec["history"], "kind": spec["kind"], "statuses": r["statuses"], "failures": r["failures"]},
+                     indent=1, default=str)[:4000])
+    if r["failures"]:
+        common.violation(ctx, {"history": spec["history"], "kind": spec["kind"], "failure": r["failures"][0]})
+
+
+# =============================================================================================
+# (b) flatten / unflatten round trip and leaf substitution
+# =============================================================================================
+def _children_sorted(v):
+    """the pytree children of a value in optree order"""
+    if isinstance(v, LinearOperator):
+        return [x for _k, x in sorted(vars(v).items())]
+    if isinstance(v, (tuple, list)):
+        return list(v)
+    if isinstance(v, dict):
+        return [v[k] for k in sorted(v)]
+    return None
+
+
+def arrays_of(v, out=None):
+    """every array reachable from an operator through attributes, containers and nested operators:
+    the operator's array parameters, in pytree order"""
+    out = [] if out is None else out
+    if isinstance(v, np.ndarray):
+        out.append(v)
+    else:
+        ch = _children_sorted(v)
+        for x in ch or []:
+            arrays_of(x, out)
+    return out
+
+
+def own_verdict(value):
+    """what LinearOperator.__setattr__ would decide for this value now"""
+    from cola.ops.operator_base import definitely_dynamic, is_array
+    from cola.backends import np_fns
+    return bool(definitely_dynamic(value) or any(map(is_array, np_fns.tree_flatten(value)[0])))
+
+
+def attr_mismatches(A, seen=None, path=""):
+    """(class, attribute, registry verdict, this instance's verdict) wherever they differ, for the
+    operator and every operator nested in it: the clause `first-instance-representative`"""
+    seen = set() if seen is None else seen
+    out = []
+    if id(A) in seen:
+        return out
+    seen.add(id(A))
+    for k, v in sorted(vars(A).items()):
+        reg = type(A)._dynamic.get(k)
+        mine = own_verdict(v)
+        if reg != mine:
+            out.append({"class": type(A).__name__, "attr": path + k, "registry": reg, "instance": mine})
+        stack = [v]
+        while stack:
+            x = stack.pop()
+            if isinstance(x, LinearOperator):
+                out.extend(attr_mismatches(x, seen, path + k + "."))
+            elif isinstance(x, (tuple, list)):
+                stack.extend(x)
+            elif isinstance(x, dict):
+                stack.extend(x.values())
+    return out
+
+
+def _perturb(x):
+    if x.dtype.kind in "iu":
+        return np.array(x[::-1] if x.ndim else x + 1, dtype=x.dtype)
+    return np.array(x + 1, dtype=x.dtype)
+
+
+def roundtrip_issues(name, A):
+    """-> list of issues {type: roundtrip|substitution|leaves, ...} for one operator"""
+    issues = []
+    with warnings.catch_warnings(), np.errstate(all="ignore"):
+        warnings.simplefilter("ignore")
+        before = snap_op(A)
+        leaves, unflatten = A.flatten()
+        B = unflatten(leaves)
+        after_A = snap_op(A)
+        sB = snap_op(B)
+        if after_A != before:
+            issues.append({"type": "roundtrip", "op": name, "what": "flatten/unflatten changed the operator itself", "field": _explain(before, after_A)})
+        if type(B) is not type(A) or sB != before:
+            issues.append({"type": "roundtrip", "op": name, "what": "unflatten(flatten(A)) differs from A",
+                           "field": "class" if type(B) is not type(A) else _explain(before, sB)})
+        # leaves vs array parameters
+        params = arrays_of(A)
+        leaf_arrays = [x for x in leaves if isinstance(x, np.ndarray)]
+        non_arrays = [x for x in leaves if not isinstance(x, np.ndarray)]
+        missing = [i for i, p in enumerate(params) if not any(p is x for x in leaf_arrays)]
+        extra = [i for i, x in enumerate(leaf_arrays) if not any(p is x for p in params)]
+        if missing or extra or non_arrays:
+            mm = attr_mismatches(A)
+            issues.append({"type": "leaves", "op": name, "class": type(A).__name__, "n_leaves": len(leaves), "n_array_params": len(params),
+                           "array_params_missing_from_leaves": len(missing), "leaves_not_array_params": len(extra),
+                           "non_array_leaves": [type(x).__name__ for x in non_arrays][:8], "attr_mismatch": mm})
+        # substituting leaf i changes precisely that leaf (and, through it, precisely that parameter)
+        for i, x in enumerate(leaves):
+            if not isinstance(x, np.ndarray):
+                continue
+            new = _perturb(x)
+            l2 = list(leaves)
+            l2[i] = new
+            try:
+                C = unflatten(l2)
+                lc = C.flatten()[0]
+            except Exception as ex:
+                issues.append({"type": "substitution", "op": name, "leaf": i, "what": f"unflatten with a substituted leaf raised {type(ex).__name__}: {ex}"[:200]})
+                continue
+            ok = len(lc) == len(leaves) and all((y is new) if j == i else (y is leaves[j] or (not isinstance(y, np.ndarray) and y == leaves[j]))
+                                                 for j, y in enumerate(lc))
+            pc = arrays_of(C)
+            positional = len(leaves) == len(params) and all(p is q for p, q in zip(params, leaves))
+            okp = (len(pc) == len(params) and all((q is new) if j == i else (q is params[j]) for j, q in enumerate(pc))) \
+                if positional else True
+            static_same = struct_static(C) == struct_static(A)
+            if not (ok and okp and static_same and type(C) is type(A)):
+                issues.append({"type": "substitution", "op": name, "leaf": i,
+                               "what": "substituting one leaf changed something else", "leaves_ok": ok, "params_ok": okp, "static_ok": static_same})
+    return issues
+
+
+def struct_static(A):
+    """the deep attribute snapshot with every array replaced by its dtype/shape (what a leaf substitution must keep)"""
+    def strip(t):
+        if isinstance(t, tuple):
+            if t and t[0] == "a":
+                return ("a", t[1], t[2])
+            return tuple(strip(x) for x in t)
+        return t
+    return strip(struct_snap(A))
+
+
+# first-instance variants: built BEFORE the pool in a fresh interpreter
+VARIANTS = {
+    "sliced_by_index_first": lambda a: Dense(a["M6"])[a["i6"], :],
+    "sliced_by_slice_first": lambda a: Dense(a["M6"])[0:2, :],
+    "sliced_both_index_first": lambda a: Dense(a["M6"])[a["i6"], a["j6"]],
+    "sliced_positional_index": lambda a: Sliced(Dense(a["M6"]), (a["i6"], a["j6"])),
+    "sliced_positional_slice": lambda a: Sliced(Dense(a["M6"]), (slice(0, 4), slice(0, 4))),
+    "kron_of_sliced_identity_slices": lambda a: Kronecker(Sliced(Identity((6, 6), np.float64), (slice(0, 2), slice(0, 2))), Identity((2, 2), np.float64)),
+    "kron_of_sliced_identity_arrays": lambda a: Kronecker(Sliced(Identity((6, 6), np.float64), (a["i6"][:2], a["j6"][:2])), Identity((2, 2), np.float64)),
+    "scalar_from_array": lambda a: ScalarMul(np.array(2.5), (4, 4), dtype=np.float64),
+    "scalar_from_float": lambda a: ScalarMul(2.5, (4, 4), dtype=np.float64),
+    "bdiag_multiplicities_array": lambda a: BlockDiag(Dense(a["M2"]), Dense(a["N2"]), multiplicities=np.array([1, 1])),
+    "house_beta_array": lambda a: Householder(a["w4"], beta=np.array(2.0)),
+    "product_of_identities": lambda a: Product(Identity((4, 4), np.float64), Identity((4, 4), np.float64)),
+    "sum_dense_dense": lambda a: Sum(Dense(a["M4"]), Dense(a["M4"])),
+    "transpose_of_identity": lambda a: Transpose(Identity((4, 4), np.float64)),
+    "lanczos_unary_with_start": lambda a: cola.exp(cola.PSD(Dense(a["M4"])), cola.Lanczos(start_vector=a["v4"], max_iters=3)),
+    "lanczos_unary_without_start": lambda a: cola.exp(cola.PSD(Dense(a["M4"])), cola.Lanczos(max_iters=3)),
+    "inv_cg_with_x0": lambda a: cola.inv(cola.PSD(Dense(a["M4"])), cola.CG(x0=a["x04"])),
+}
+
+
+# ---------------------------------------------------------------------------- recorder (child only)
+class Recorder:
+    """records every `self.attr = value` on a LinearOperator and every subclass creation, in the event
+    language of lean/DriverC18.lean.  The wrappers delegate to the original functions unchanged."""
+    BASE = {"xnp": 0, "shape": 1, "dtype": 2, "device": 3, "annotations": 4}
+
+    def __init__(self):
+        self.log, self.keep = [], []
+        self.cls_ids, self.attr_ids, self.obj_ids, self.arr_ids, self.atom_ids = {LinearOperator: 0}, dict(self.BASE), {}, {}, {}
+
+    def cid(self, c):
+        if c not in self.cls_ids:
+            parent = next(b for b in c.__mro__[1:] if isinstance(b, type) and issubclass(b, LinearOperator))
+            p = self.cid(parent)
+            self.cls_ids[c] = len(self.cls_ids)
+            self.log.append(["sub", self.cls_ids[c], p])
+        return self.cls_ids[c]
+
+    def _id(self, table, x):
+        k = id(x)
+        if k not in table:
+            table[k] = len(table)
+            self.keep.append(x)
+        return table[k]
+
+    def enc(self, v):
+        if isinstance(v, np.ndarray):
+            return ["a", self._id(self.arr_ids, v)]
+        if isinstance(v, LinearOperator):
+            return ["obj", self._id(self.obj_ids, v)]
+        if v is None:
+            return ["tup", []]
+        if isinstance(v, (tuple, list)) and not hasattr(v, "_fields"):
+            return ["tup", [self.enc(x) for x in v]]
+        if isinstance(v, dict):
+            return ["tup", [self.enc(v[k]) for k in sorted(v)]]
+        return ["t", self._id(self.atom_ids, v)]
+
+    def install(self):
+        from cola.backends.backends import AutoRegisteringPyTree
+        rec = self
+        # classes that exist already (import time): parents first
+        todo = [LinearOperator]
+        while todo:
+            c = todo.pop(0)
+            rec.cid(c)
+            todo.extend(c.__subclasses__())
+        orig_set = LinearOperator.__setattr__
+        orig_init = AutoRegisteringPyTree.__init__
+
+        def setattr_rec(self, name, value):
+            c = rec.cid(type(self))
+            a = rec.attr_ids.setdefault(name, len(rec.attr_ids))
+            rec.log.append(["set", c, rec._id(rec.obj_ids, self), a, rec.enc(value)])
+            return orig_set(self, name, value)
+
+        def init_rec(cls, *args, **kwargs):
+            orig_init(cls, *args, **kwargs)
+            rec.cid(cls)
+
+        LinearOperator.__setattr__ = setattr_rec
+        AutoRegisteringPyTree.__init__ = init_rec
+
+
+def child_main(spec):
+    rec = Recorder()
+    rec.install()
+    a = make_arrays(spec.get("variant", 0))
+    objs = {}
+    for name in spec.get("pre", []):
+        objs["pre:" + name] = VARIANTS[name](a)
+    for k in spec["order"]:
+        objs[k] = BUILDERS[k](a)
+    for name in spec.get("post", []):
+        objs["post:" + name] = VARIANTS[name](a)
+    issues, real = [], {}
+    nlog = len(rec.log)
+    for name, A in objs.items():
+        try:
+            leaves = A.flatten()[0]
+            real[name] = {"obj": rec._id(rec.obj_ids, A), "leaves": [rec.enc(x) if isinstance(x, np.ndarray) else ["t", rec._id(rec.atom_ids, x)]
+                                                                      for x in leaves],
+                          "class": type(A).__name__, "mismatch": attr_mismatches(A)}
+        except Exception as ex:
+            issues.append({"type": "crash", "op": name, "what": f"flatten raised {type(ex).__name__}: {ex}"[:300]})
+    log = rec.log[:nlog]
+    for name, A in objs.items():
+        try:
+            issues.extend(roundtrip_issues(name, A))
+        except Exception as ex:
+            issues.append({"type": "crash", "op": name, "what": f"{type(ex).__name__}: {ex}"[:300]})
+    names = sorted(rec.attr_ids, key=lambda k: k)
+    rank = [0] * len(rec.attr_ids)
+    for r, nm in enumerate(names):
+        rank[rec.attr_ids[nm]] = r
+    print("C18CHILD " + json.dumps({"spec": spec, "issues": issues, "real": real, "log": log, "rank": rank}))
+
+
+def run_children(specs):
+    env = dict(os.environ)
+    env["PYTHONPATH"] = os.path.dirname(HERE) + os.pathsep + env.get("PYTHONPATH", "")
+    procs = []
+    out = []
+    for i in range(0, len(specs), 16):
+        batch = [(s, subprocess.Popen([PY, os.path.abspath(__file__), "--child", json.dumps(s)], stdout=subprocess.PIPE,
+                                      stderr=subprocess.PIPE, text=True, env=env)) for s in specs[i:i + 16]]
+        for s, p in batch:
+            so, se = p.communicate(timeout=600)
+            line = [ln for ln in so.splitlines() if ln.startswith("C18CHILD ")]
+            if p.returncode != 0 or not line:
+                out.append({"spec": s, "error": (se or so)[-1500:], "issues": []})
+            else:
+                out.append(json.loads(line[-1][len("C18CHILD "):]))
+    return out
+
+
+def child_specs(ctx):
+    rng = random.Random(ctx.seed + 1)
+    specs = [{"order": list(KINDS), "pre": [], "post": list(VARIANTS)},
+             {"order": list(reversed(KINDS)), "pre": [], "post": list(reversed(list(VARIANTS)))}]
+    names = list(VARIANTS)
+    n = 60 if ctx.thorough else 10
+    for i in range(n):
+        order = list(KINDS)
+        rng.shuffle(order)
+        pre = rng.sample(names, rng.randint(1, 5))
+        post = [v for v in names if v not in pre]
+        rng.shuffle(post)
+        specs.append({"order": order, "pre": pre, "post": post, "variant": i % 3})
+    # the two orders of the Lean witness, isolated
+    specs.append({"order": ["sliced_s", "sliced_a"], "pre": [], "post": []})
+    specs.append({"order": ["sliced_a", "sliced_s"], "pre": [], "post": []})
+    return specs
+
+
+def part_bc(ctx, cov, specs=None):
+    import oracle
+    t0 = time.time()
+    known = dict(common.known_clauses(ctx.prop))
+    specs = specs or child_specs(ctx)
+    results = run_children(specs)
+    # in-process (this interpreter, pool order) as one more history
+    inproc = []
+    e = Env()
+    for k, A in e.pool.items():
+        inproc.extend(roundtrip_issues(k, A))
+    results.append({"spec": {"order": list(KINDS), "in_process": True}, "issues": inproc, "real": {}, "log": []})
+    n_checked = 0
+    viol = 0
+    leaf_sig = {}
+    known_hits = []
+    # correspondence of the registry model first: Lean's leaves = the real leaves, object by object
+    cases = [{"id": ri, "log": res["log"], "rank": res.get("rank", []), "query": [r["obj"] for r in res["real"].values()]}
+             for ri, res in enumerate(results) if res.get("log") and not res.get("error")]
+    ans = oracle.run_driver(cases, driver="DriverC18.lean", nproc=min(8, len(cases))) if cases else {}
+    model_checked = model_bad = 0
+    model_ok = set()       # (result index, operator name) on which model and real flatten agree
+    for ri, res in enumerate(results):
+        if ri not in ans:
+            continue
+        if "error" in ans[ri]:
+            common.violation(ctx, {"broken": "DriverC18 error", "error": ans[ri]["error"], "child_spec": res["spec"]}, no_input=True)
+            model_bad += 1
+            continue
+        by_obj = {o["obj"]: o for o in ans[ri]["objs"]}
+        for name, r in res["real"].items():
+            m = by_obj[r["obj"]]
+            model_checked += 1
+            top_mismatch = [x for x in r["mismatch"] if "." not in x["attr"]]
+            if m["leaves"] != r["leaves"] or bool(m["clauses"]) != bool(top_mismatch):
+                model_bad += 1
+                # real != code model: does the real code contradict the SPEC (leaves = array parameters) here?  If so this
+                # construction order is the failing input
+                contradicts = bool(r["mismatch"])
+                if model_bad <= 3:
+                    common.violation(ctx, {"broken": "registry model and real flatten disagree", "operator": name, "class": r["class"],
+                                           "real_leaves": r["leaves"], "model_leaves": m["leaves"], "model_clauses": m["clauses"],
+                                           "real_mismatch": r["mismatch"], "child_spec": res["spec"],
+                                           "replay": "./check C18 quick --replay <this file>"}, no_input=not contradicts)
+            else:
+                model_ok.add((ri, name))
+    for ri, res in enumerate(results):
+        if res.get("error"):
+            common.violation(ctx, {"child_spec": res["spec"], "error": res["error"]}, no_input=True)
+            viol += 1
+            continue
+        for name, r in res.get("real", {}).items():
+            n_checked += 1
+            sig = (len(r["leaves"]), sum(1 for x in r["leaves"] if x[0] == "t"))
+            leaf_sig.setdefault(name.split(":")[-1], set()).add(sig)
+        bad = []
+        for it in res["issues"]:
+            if it["type"] == "leaves":
+                if it.get("attr_mismatch") and ((ri, it["op"]) in model_ok or not res.get("log")):
+                    known_hits.append((res["spec"], it))      # real = code model != spec: the modelled defect
+                elif it.get("attr_mismatch"):
+                    pass                                      # reported above (model disagreement)
+                elif it["array_params_missing_from_leaves"] == 0 and it["leaves_not_array_params"] == 0:
+                    # non-array leaves inside an attribute that also holds arrays, e.g. slices = (index_array, slice(None)):
+                    # the attribute IS array-valued (C18_leaves is stated attribute by attribute); counted, not an issue
+                    cov["mixed_container_leaves"] = cov.get("mixed_container_leaves", 0) + 1
+                else:
+                    bad.append(it)
+            else:
+                bad.append(it)
+        if bad and viol < 4:
+            common.violation(ctx, {"child_spec": res["spec"], "issues": bad[:5], "replay": "./check C18 quick --replay <this file>"})
+            viol += 1
+    # known / provisional clause
+    if known_hits:
+        clause = "first-instance-representative"
+        spec0, it0 = known_hits[0]
+        what = (known.get(clause) or {}).get("what") or PROVISIONAL_KNOWN[clause]
+        if clause in known or clause in PROVISIONAL_KNOWN:
+            common.known_finding(ctx, clause, f"{what} [e.g. {it0['op']} ({it0['class']}): {it0['attr_mismatch'][0]} in construction order "
+                                             f"pre={spec0.get('pre')} order={spec0.get('order')[:4]}...]")
+        else:
+            common.violation(ctx, {"child_spec": spec0, "issues": [it0]})
+    cov.update({
+        "fresh_interpreters": len(specs),
+        "operators_flattened": n_checked,
+        "history_dependent_kinds": sorted(k for k, v in leaf_sig.items() if len(v) > 1),
+        "leaf_signatures": {k: sorted(map(list, v)) for k, v in sorted(leaf_sig.items()) if len(v) > 1},
+        "clause_hits_first_instance_representative": len(known_hits),
+        "registry_model_objects_compared": model_checked,
+        "registry_model_disagreements": model_bad,
+        "variants": list(VARIANTS),
+        "part_bc_wall_s": round(time.time() - t0, 1),
+    })
+    return model_bad
+
+
+# =============================================================================================
+# (d) translator + Lean gate, and the driver of the whole check
+# =============================================================================================
+def run_translator(cov):
+    sys.path.insert(0, os.path.dirname(TRANSLATOR))
+    import scan_inplace_sites as tr
+    sys.setrecursionlimit(20000)
+    res = tr.run(quiet=True)
+    from collections import Counter
+    lib = [r for r in res["sites"] if r["scope"] == "library"]
+    cov["sites_total"] = len(res["sites"])
+    cov["sites_by_scope"] = dict(Counter(r["scope"] for r in res["sites"]))
+    cov["library_sites_by_provenance"] = dict(Counter(r["cls"] for r in lib))
+    cov["library_sites_by_kind"] = dict(Counter(r["kind"] for r in lib))
+    cov["cola_dir_scanned"] = res["base"]
+    cov["site_table_changed_by_this_run"] = res["changed"]
+    return res
+
+
+def module_gate(ctx):
+    """common.lean_gate restricted to the C18 module (build, re-elaboration, #print axioms audit, source scan)"""
+    import re
+    rc, out = common.lake_build([MODULE])
+    if rc != 0:
+        raise common.LeanGateError("lake build failed:\n" + out[-3000:])
+    path = os.path.join("ColaVerif", *MODULE.split(".")[1:]) + ".lean"
+    rc, so, se = common.sh(["lake", "env", "lean", path], cwd=common.LEAN_DIR, timeout=3000)
+    if rc != 0:
+        raise common.LeanGateError(f"{path} does not elaborate:\n" + (so + se)[-3000:])
+    theorems = {}
+    txt = so.replace("\n  ", " ")
+    for m in re.finditer(r"'([^']+)' depends on axioms: \[([^\]]*)\]", txt):
+        theorems[m.group(1)] = [a.strip() for a in m.group(2).split(",") if a.strip()]
+    for m in re.finditer(r"'([^']+)' does not depend on any axioms", txt):
+        theorems[m.group(1)] = []
+    if not theorems:
+        raise common.LeanGateError(f"{path}: no '#print axioms' output found")
+    bad = {k: v for k, v in theorems.items() if not set(v) <= common.ALLOWED_AXIOMS}
+    hits = common.scan_sources()
+    if hits:
+        raise common.LeanGateError("forbidden tokens in Lean sources:\n" + "\n".join(hits[:20]))
+    return {"obligations": len(theorems), "discharged": len(theorems) - len(bad), "theorems": sorted(theorems), "bad_axioms": bad,
+            "checker_cmd": f"cd lean && lake build {MODULE} && lake env lean {path}   # kernel re-check + #print axioms audit"}
+
+
+def run(ctx):
+    if ctx.replay:
+        replay(ctx)
+        return
+    cov = {}
+    tr = run_translator(cov)
+    gate = None
+    gate_error = None
+    try:
+        gate = common.lean_gate(ctx, MODULE)
+    except common.LeanGateError as ex:
+        gate_error = str(ex)
+        if "forbidden tokens" not in gate_error:
+            # the whole-library build may have broken in a module of another property (agents work concurrently, generated
+            # tables of other checks change): check C18's own module and its imports alone, same audit.  If C18's module is
+            # what is broken, this fails as well.
+            try:
+                gate = module_gate(ctx)
+                cov["gate_scope"] = "ColaVerif.Properties.C18 and its imports only; the whole-library build failed elsewhere: " \
+                    + gate_error.strip().splitlines()[-1][:200]
+                gate_error = None
+            except common.LeanGateError as ex2:
+                gate_error = str(ex2)
+    if gate_error is not None:
+        print("Lean gate failed (the site table or a proof no longer checks); searching a failing history by byte comparison:\n"
+              + gate_error[-1500:], flush=True)
+    agg = part_a(ctx, cov)
+    model_bad = part_bc(ctx, cov)
+    if gate_error is not None:
+        bad_sites = [r for r in tr["sites"] if r["scope"] == "library" and r["cls"] in ("param", "unknown")]
+        cov["gate_error"] = gate_error[-600:]
+        if not ctx.violations:
+            common.violation(ctx, {"broken": "Lean gate of ColaVerif.Properties.C18 failed and the byte-comparison search found no failing history",
+                                   "error": gate_error[-1500:],
+                                   "non_fresh_library_sites": [{k: r[k] for k in ("file", "line", "func", "target", "cls", "chain")} for r in bad_sites]},
+                             no_input=True)
+    assumptions = [
+        "C18_safe is about the buffer-event IR; the slice of each function (reaching definitions, loop states resolved through the init "
+        "functions, call results through return expressions) is produced by the AST translator, which is trusted and cross-checked by the "
+        "byte comparison of part (a); the list of allocating / view-returning backend functions (FRESH_FNS, VIEW_FNS) describes the NumPy backend",
+        "`A @ x` is a fresh array or (a view of) x: assumed for every _matmat of cola (Identity returns x); operands that are parameters "
+        "annotated LinearOperator are operators, not buffers",
+        "registry model: classes and attribute names are numbers, tree_flatten's sorted(vars) is modelled by insertion order, "
+        "find_device(fields) or fields['device'] is fields['device'] (NumPy: one device)",
+        "known clause first-instance-representative (PROVISIONAL_KNOWN): leaves = array parameters only when the first instance of the "
+        "(parametrised) class had arrays in the same attributes",
+        "attributes `info` (log of the last iterative run) and kwargs['start_vector'] of LanczosUnary/ArnoldiUnary are not part of an operator's value",
+        "run_householder_arnoldi raises on every input (permute of a 2-D array with 3 axes): use_householder=True paths are exercised up to the exception only",
+    ]
+    common.write_evidence(ctx, gate, cov, assumptions)
+    print(f"C18 {ctx.tier} seed={ctx.seed}: {cov['runs_history_x_kind']} runs, {cov['evaluations']} operations, "
+          f"{cov['distinct_nontrivial']} non-trivial sequences, {cov['fresh_interpreters']} fresh interpreters, "
+          f"sites {cov['library_sites_by_provenance']}, violations={len(ctx.violations)}, wall={ctx.wall():.0f}s", flush=True)
+
+
+if __name__ == "__main__":
+    if len(sys.argv) >= 3 and sys.argv[1] == "--child":
+        child_main(json.loads(sys.argv[2]))
